@@ -55,6 +55,39 @@ def eqWs : List WAcc → List WAcc → Bool
   | _, _ => false
 end
 
+def eqArgTy : ArgTy → ArgTy → Bool
+  | .ctrl k, .ctrl k' => k == k'
+  | .scalar, .scalar => true
+  | .tensor s w, .tensor s' w' => eqEs s s' && w == w'
+  | _, _ => false
+
+def eqFnArgs : List FnArg → List FnArg → Bool
+  | [], [] => true
+  | ⟨x, t⟩ :: r, ⟨y, u⟩ :: s => x == y && eqArgTy t u && eqFnArgs r s
+  | _, _ => false
+
+mutual
+def eqS : Stmt → Stmt → Bool
+  | .assign x i r, .assign y j s => x == y && eqEs i j && eqE r s
+  | .reduce x i r, .reduce y j s => x == y && eqEs i j && eqE r s
+  | .writecfg c f r d, .writecfg c' f' r' d' => c == c' && f == f' && eqE r r' && d == d'
+  | .pass, .pass => true
+  | .ite c t e, .ite c' t' e' => eqE c c' && eqSs t t' && eqSs e e'
+  | .loop i lo hi b p, .loop i' lo' hi' b' p' =>
+      i == i' && eqE lo lo' && eqE hi hi' && eqSs b b' && p == p'
+  | .alloc x sh, .alloc y sh' => x == y && eqEs sh sh'
+  | .free x, .free y => x == y
+  | .call f a, .call g b => eqP f g && eqEs a b
+  | .window x r, .window y s => x == y && eqE r s
+  | _, _ => false
+def eqSs : List Stmt → List Stmt → Bool
+  | [], [] => true
+  | a :: r, b :: s => eqS a b && eqSs r s
+  | _, _ => false
+def eqP : Proc → Proc → Bool
+  | .mk n a p b, .mk n' a' p' b' => n == n' && eqFnArgs a a' && eqEs p p' && eqSs b b'
+end
+
 /-! ### occurrence of a symbol, configuration reads -/
 
 mutual
@@ -330,6 +363,14 @@ def matchV (θ : Subst) : Expr → Expr → Bool
       | _ => false
   | _, _ => false
 
+/-- arguments of a nested call: control arguments by value, numeric arguments as views -/
+def matchArgs (θ : Subst) : List FnArg → List Expr → List Expr → Bool
+  | [], [], [] => true
+  | ⟨_, .ctrl _⟩ :: fs, a :: as, b :: bs => matchC θ a b && matchArgs θ fs as bs
+  | ⟨_, .scalar⟩ :: fs, a :: as, b :: bs => matchV θ a b && matchArgs θ fs as bs
+  | ⟨_, .tensor _ _⟩ :: fs, a :: as, b :: bs => matchV θ a b && matchArgs θ fs as bs
+  | _, _, _ => false
+
 /-! ### statements -/
 
 /-- right-hand side of a configuration write: data or control, as the field's type says -/
@@ -365,6 +406,8 @@ def matchS (θ : Subst) : Stmt → Stmt → Option Subst
   | .free _, .free _ => some θ
   | .window x rhs, .window x' rhs' =>
       if matchV θ rhs rhs' && fresh x' θ then some ((x, .buf x' none) :: θ) else none
+  | .call g as, .call g' as' =>
+      if eqP g g' && matchArgs θ g.args as as' then some θ else none
   | _, _ => none
 def matchL (θ : Subst) : List Stmt → List Stmt → Option Subst
   | [], [] => some θ
@@ -466,6 +509,20 @@ def substV (θ : Subst) : Expr → Option Expr
       | _, _ => none
   | _ => none
 
+/-- arguments of a nested call -/
+def substArgs (θ : Subst) : List FnArg → List Expr → Option (List Expr)
+  | [], [] => some []
+  | ⟨_, .ctrl _⟩ :: fs, a :: as => match substC θ a, substArgs θ fs as with
+      | some a', some as' => some (a' :: as')
+      | _, _ => none
+  | ⟨_, .scalar⟩ :: fs, a :: as => match substV θ a, substArgs θ fs as with
+      | some a', some as' => some (a' :: as')
+      | _, _ => none
+  | ⟨_, .tensor _ _⟩ :: fs, a :: as => match substV θ a, substArgs θ fs as with
+      | some a', some as' => some (a' :: as')
+      | _, _ => none
+  | _, _ => none
+
 mutual
 /-- `SubstArgs` over statements; bound names are kept and stand for themselves -/
 def substS (θ : Subst) : Stmt → Option (Stmt × Subst)
@@ -494,7 +551,9 @@ def substS (θ : Subst) : Stmt → Option (Stmt × Subst)
   | .window x rhs => match substV θ rhs with
       | some rhs' => some (.window x rhs', (x, .buf x none) :: θ)
       | none => none
-  | .call _ _ => none
+  | .call g as => match substArgs θ g.args as with
+      | some as' => some (.call g as', θ)
+      | none => none
 def substL (θ : Subst) : List Stmt → Option (List Stmt)
   | [] => some []
   | s :: r => match substS θ s with
